@@ -82,6 +82,7 @@ func selfEnv() Env {
 type crash struct {
 	idx    int
 	hang   bool
+	mem    bool
 	stderr string
 }
 
@@ -147,7 +148,7 @@ func runRange(env Env, p *Prop, t Tier, seed uint64, lo, hi int, agg *Agg, tag s
 			agg.mu.Unlock()
 			return crashes
 		}
-		crashes = append(crashes, crash{idx: o.lastStart, hang: o.hang, stderr: tailString(string(se), 12000)})
+		crashes = append(crashes, crash{idx: o.lastStart, hang: o.hang, mem: o.mem, stderr: tailString(string(se), 12000)})
 		skip = append(skip, o.lastStart)
 		cur = o.lastUpto
 		if attempt > 200 {
@@ -276,6 +277,15 @@ func Main(id string, tier Tier) int {
 			continue
 		}
 		confirmed++
+		if again[0].mem {
+			if p.HangIsViolation {
+				agg.Viols = append(agg.Viols, Violation{Sig: "memory-exhaustion", What: "the case drove the process beyond the resident-memory limit when run alone (unbounded allocation)", Idx: c.idx,
+					Detail: map[string]interface{}{"stderr_tail": Trunc(tailString(again[0].stderr, 3000), 3000)}})
+			} else {
+				agg.Inconcl = append(agg.Inconcl, fmt.Sprintf("case %d exceeded the resident-memory limit when run alone", c.idx))
+			}
+			continue
+		}
 		if again[0].hang {
 			if p.HangIsViolation {
 				agg.Viols = append(agg.Viols, Violation{Sig: "hang", What: "call did not return within 20x the per-case watchdog when run alone", Idx: c.idx,
